@@ -127,6 +127,40 @@ class UInterp(mirsym.Interp):
             if op == 'store':
                 st.cnt[x] = args[1]
                 return cont(st, Opaque('unit'))
+        mcas = re.search(r'Atomic::(compare_exchange|compare_exchange_weak)$', n)
+        if mcas:
+            ptr, exp, new = args[0], args[1], args[2]
+            if not (isinstance(ptr, Ptr) and ptr.root[0] == 'H' and ptr.path == (0,)):
+                raise Unsupported(f'atomic on {ptr}')
+            x = ptr.root[1]
+            if x in st.freed:
+                st.trace.append(f'ATOMIC ACCESS TO FREED ALLOCATION {x}')
+                st.mem[('FLAG', 'uaf')] = True
+            cur = st.cnt[x]
+            weak = mcas.group(1).endswith('weak')
+            # sequential semantics: succeeds iff the word equals `exp` (the weak form may also fail spuriously)
+            for succ in (True, False):
+                st2 = st.clone()
+                if succ:
+                    st2.pc.append(cur == exp)
+                    st2.cnt[x] = new if not isinstance(new, int) else BitVecVal(new, 64)
+                    st2.trace.append(f'compare_exchange on count({x}) succeeds')
+                    rv = Enum('Result', 'Ok', [cur])
+                else:
+                    if not weak:
+                        st2.pc.append(cur != exp)
+                    st2.trace.append(f'compare_exchange on count({x}) fails' + (' (possibly spuriously)' if weak else ''))
+                    rv = Enum('Result', 'Err', [cur])
+                if not s.feasible(st2):
+                    continue
+                try:
+                    cont(st2, rv)
+                except PathEnd as e:
+                    s.paths.append((st2, ('end', e.why)))
+            return
+        if n in ('Result::is_ok', 'Result::is_err'):
+            r = args[0] if isinstance(args[0], Enum) else st.load(args[0])
+            return cont(st, (r.variant == 'Ok') == n.endswith('is_ok'))
         if n == 'fence' or n.endswith('::fence'):
             return cont(st, Opaque('unit'))
         if n.endswith('Atomic::new'):
